@@ -61,7 +61,10 @@ Definition supplied_of (f : fn) (c : call) (b : binding) : list (option ann * va
         | BOne (SKw k) => map (fun v => (p_ann p, v)) (opt_list (kw_get k (c_kwargs c)))
         | BOne (SDefault _) => map (fun v => (p_ann p, v)) (opt_list (p_default p))
         | BOne _ => []
-        | BStar l => flat_map (fun s => map (fun v => (p_ann p, v)) (opt_list (src_value f c s))) l
+        | BStar l => flat_map (fun s => match s with
+                                        | SArg i => map (fun v => (p_ann p, v)) (opt_list (nth_error (c_args c) i))
+                                        | _ => []                     (* an implicit receiver is not a supplied argument *)
+                                        end) l
         | BKws ks => flat_map (fun k => map (fun v => (p_ann p, v)) (opt_list (kw_get k (c_kwargs c)))) ks
         end
     end) b.
